@@ -1081,6 +1081,15 @@ def oracle(sql, nested_schema, dialect):
     s1, t2, q2, err = second_pass(q1, nested_schema, dialect)
     if err:
         kind_rq = "requalify-raises"
+        if (dialect or "").split(",")[0].strip() == "bigquery":
+            # BigQuery's shadow rule printed a GROUP BY / HAVING column bare because its qualifier equals a projection alias:
+            # the recorded C10-bigquery-group-shadow-not-idempotent family, whatever the second pass then does (differs or raises)
+            for sel_ in select_nodes(q1):
+                for clause_ in ("group", "having"):
+                    node_ = sel_.args.get(clause_)
+                    if node_ is not None and any(c_.args.get("shadow") for c_ in node_.find_all(exp.Column)):
+                        return ("not-idempotent:" + clause_, f"qualifying the result again raised {err} (a {clause_.upper()} column whose "
+                                f"qualifier equals a projection alias was printed bare); first result: {s1}")
         if ("Unknown column" in err or "could not be resolved" in err) and "WITH" not in s1.upper() \
                 and "USING" not in sql.upper() and "exasol" not in str(dialect):
             # (families with their own recorded signature — hoisted nested WITH, USING, exasol stars — keep the plain kind)
